@@ -202,6 +202,8 @@ func generate(c *core.Ctx, root string, dirs []string, fail func(dir, msg string
 	return append(generate(c, root, dirs[:h], fail), generate(c, root, dirs[h:], fail)...)
 }
 
+const earlyDir = "p/a0early"
+
 func checkProgs(c *core.Ctx, progs []Prog) {
 	root := pipe.TempDir("c17")
 	defer os.RemoveAll(root)
@@ -223,6 +225,34 @@ func checkProgs(c *core.Ctx, progs []Prog) {
 		dirs = append(dirs, "p/"+name)
 		byDir["p/"+name] = p
 	}
+	// context: a package that is generated EARLIER in the same run (its path sorts first) and holds, by value,
+	// the exported struct / defined types of every judged package; it is not judged itself
+	{
+		var imp, fld strings.Builder
+		n := 0
+		for i, p := range progs {
+			name := fmt.Sprintf("k%05d", i)
+			for _, f := range p.Fields {
+				var ft string
+				switch fieldKinds[f].typ {
+				case "Sub", "Dep", "Deep", "MyInt", "MyMap":
+					ft = name + "." + fieldKinds[f].typ
+				case "G[int]", "UG[string]":
+					ft = name + "." + fieldKinds[f].typ
+				default:
+					continue
+				}
+				fmt.Fprintf(&imp, "\t%q\n", modPath+"/p/"+name)
+				fmt.Fprintf(&fld, "\tF%d %s\n", n, ft)
+				n++
+				break
+			}
+		}
+		if n > 0 {
+			t[earlyDir+"/early.go"] = "// Package early refers to the other packages of the run.\npackage early\n\nimport (\n" + imp.String() + ")\n\n// E holds types of the packages generated after this one.\n// +gengo:deepcopy\ntype E struct {\n" + fld.String() + "}\n"
+			dirs = append([]string{earlyDir}, dirs...)
+		}
+	}
 	if err := pipe.WriteTree(root, t); err != nil {
 		c.Internal("%v", err)
 		return
@@ -230,6 +260,9 @@ func checkProgs(c *core.Ctx, progs []Prog) {
 	failed := map[string]bool{}
 	report := func(class string) func(dir, msg string) {
 		return func(dir, msg string) {
+			if dir == earlyDir {
+				return // context only
+			}
 			if !failed[dir] {
 				failed[dir] = true
 				p := byDir[dir]
@@ -247,6 +280,10 @@ func checkProgs(c *core.Ctx, progs []Prog) {
 	ok2 := generate(c, root, ok1, report("regenerate"))
 	seamctl.Set(0, nil)
 	t2, _ := pipe.ReadTree(root)
+	dirs = without(dirs, earlyDir)
+	ok2 = without(ok2, earlyDir)
+	// (whether the context package compiles is not judged: its generated file is removed before the build)
+	_ = os.Remove(root + "/" + earlyDir + "/zz_generated.deepcopy.go")
 	for _, d := range ok2 {
 		if genFileOf(t1, d) == "" {
 			report("generate")(d, "the generator produced no file")
@@ -312,6 +349,16 @@ func checkProgs(c *core.Ctx, progs []Prog) {
 			c.Nontrivial(p.String())
 		}
 	}
+}
+
+func without(xs []string, x string) []string {
+	var out []string
+	for _, v := range xs {
+		if v != x {
+			out = append(out, v)
+		}
+	}
+	return out
 }
 
 // classify names the recorded defect class that explains a failure (exactly).
@@ -411,7 +458,7 @@ func replay(c *core.Ctx, raw json.RawMessage) {
 func init() {
 	core.Register(&core.Prop{
 		ID: "C17", Level: "model_checking", Run: run, Replay: replay, Shards: 4,
-		Rule:        "(seam build: the second generation runs under descending map order in library and generator) every root struct with 1..2 fields (ordered; plus all 3-field lists over the same-package kinds) over 16 field kinds (scalars, string, slices/maps of scalars, tagged same-package struct, untagged dependency struct, 3-level nesting through untagged dependencies, defined scalar, defined map, error, any, named interface, field of an instantiated generic struct) x enabling tag on package vs on type x gengo:deepcopy:interfaces on/off x generic root (bare type-parameter field) x hand-written methods (one non-pointer parameter / result) on every type in a file loaded before / after the generated one; each package generated TWICE by the real generator through the real pipeline (outputs compared), compiled with the package, and exercised by a harness-written check (nil, DeepEqual, mutate every reachable slice/map of the copy then compare the original with a snapshot, DeepCopyInto). Non-trivial = 2 fields; states = distinct (field count, tag placement, interfaces, failed?)",
+		Rule:        "(seam build: the second generation runs under descending map order in library and generator) every root struct with 1..2 fields (ordered; plus all 3-field lists over the same-package kinds) over 16 field kinds (scalars, string, slices/maps of scalars, tagged same-package struct, untagged dependency struct, 3-level nesting through untagged dependencies, defined scalar, defined map, error, any, named interface, field of an instantiated generic struct) x enabling tag on package vs on type x gengo:deepcopy:interfaces on/off x generic root (bare type-parameter field) x hand-written methods (one non-pointer parameter / result) on every type in a file loaded before / after the generated one; all packages of a batch generated in one run together with an EARLIER package that holds their exported types by value; each package generated TWICE by the real generator through the real pipeline (outputs compared), compiled with the package, and exercised by a harness-written check (nil, DeepEqual, mutate every reachable slice/map of the copy then compare the original with a snapshot, DeepCopyInto). Non-trivial = 2 fields; states = distinct (field count, tag placement, interfaces, failed?)",
 		Assumptions: []string{"pointer fields, slices of structs and slices over type parameters are outside the stated domain"},
 	})
 }
